@@ -12,6 +12,10 @@ RELATED = {"C01": ["C01", "C03", "C16"], "C02": ["C02", "C14"], "C03": ["C03", "
            "C15": ["C15"], "C16": ["C16", "C01"], "C17": ["C17"], "C18": ["C18"], "C19": ["C19"], "C20": ["C20"]}
 args = sys.argv[1:]
 for prop, d in zip(args[0::2], args[1::2]):
+    checks_override = None
+    if "=" in prop:   # C16=C16,C04 : run these checks instead of the default related ones
+        prop, cl = prop.split("=")
+        checks_override = cl.split(",")
     name = prop + "_" + os.path.basename(d.rstrip("/"))
     w = f"/tmp/ev_{name}"
     subprocess.run(["git", "-C", "/repo", "worktree", "remove", "--force", w], capture_output=True)
@@ -30,7 +34,7 @@ for prop, d in zip(args[0::2], args[1::2]):
         rec["demo_mut"] = p.returncode
         rec["demo_tail"] = (p.stdout + p.stderr)[-400:]
         rec["checks"] = {}
-        for chk in RELATED.get(prop, [prop]):
+        for chk in checks_override or RELATED.get(prop, [prop]):
             e2 = dict(os.environ, VERIF_REPO=w)
             q = subprocess.run(["./check", chk, "--tier", "quick", "--no-evidence"], cwd="/verif", env=e2, capture_output=True, text=True)
             lines = q.stdout.splitlines()
